@@ -20,6 +20,26 @@ Theorem C05_generated_shapes_match :
 Proof. split; reflexivity. Qed.
 Print Assumptions C05_generated_shapes_match.
 
+(* newStack (as of the fix for F14) captures into a buffer of min(depth, callersDepth) entries and doubles it, up
+   to depth, while runtime.Callers fills it completely.  For every stack, every starting size and every depth
+   that loop returns what ONE call with a buffer of depth entries returns - which is what [go_callers] models:
+   StackDepth(n) keeps the n innermost frames, all of them when fewer exist, for every n including math.MaxInt. *)
+Theorem C05_growing_buffer_is_one_capture : forall (A : Type) (rest : list A) fuel b depth,
+  0 < b -> b <= depth -> (List.length rest < fuel + Z.to_nat b)%nat ->
+  grow fuel b depth rest = zfirstn depth rest.
+Proof. exact (@grow_is_single_capture). Qed.
+Print Assumptions C05_growing_buffer_is_one_capture.
+
+(* StackSkip values are added with saturation at math.MaxInt (as of the fix for F15).  The model adds them exactly
+   (in Z); on every goroutine stack (no longer than math.MaxInt) both remove the same frames. *)
+Theorem C05_saturating_skip_is_exact_sum : forall (A : Type) (gs : list A) a b,
+  Z.of_nat (List.length gs) <= max_int ->
+  zskipn (add_skip a b) gs = zskipn (a + b) gs.
+Proof. exact (@saturating_skip_is_exact_sum). Qed.
+Print Assumptions C05_saturating_skip_is_exact_sum.
+
+
+
 (* The skip each constructor passes is exactly the number of the library's own
    frames on the stack at capture time: length chain_<ctor> = callersSkip for
    New, Errorf, Wrap, Wrapf, Join and = callersSkip + 1 for Recover (whose error
